@@ -121,6 +121,32 @@ func c06Check(u univ.Universe, root [2]string, st *c06Stats) (fails []string, ou
 		out[e.From] = append(out[e.From], e)
 	}
 	hasBundle := false
+	// install-folder names taken by aliases anywhere in the universe: npm looks a dependency up by folder name and
+	// checks only the version of what it finds (Arborist depValid), so a requirement on package c may legitimately be
+	// served by another package installed under an alias spelled c
+	aliasKeys := map[string]bool{}
+	for _, v := range u.Vers {
+		for _, r := range v.Reqs {
+			if r.Alias != "" {
+				aliasKeys[r.Alias] = true
+			}
+		}
+	}
+	// declOf finds the declaration an edge stands for
+	declOf := func(v univ.Ver, e resolve.Edge) *univ.Req {
+		to := g.Nodes[e.To].Version
+		alias, _ := e.Type.GetAttr(dep.KnownAs)
+		var decl *univ.Req
+		for k := range v.Reqs {
+			r := &v.Reqs[k]
+			if (r.Pkg == to.Name || alias != "" || aliasKeys[r.Pkg]) && r.Ver == e.Requirement && r.Alias == alias && !r.Dev && r.Scope != "peer" {
+				if decl == nil || r.Pkg == to.Name {
+					decl = r
+				}
+			}
+		}
+		return decl
+	}
 	for i, nd := range g.Nodes {
 		v, ok := u.Find(nd.Version.Name, nd.Version.Version)
 		if !ok {
@@ -140,7 +166,7 @@ func c06Check(u univ.Universe, root [2]string, st *c06Stats) (fails []string, ou
 				alias, _ := e.Type.GetAttr(dep.KnownAs)
 				// an aliased requirement is looked up by its alias: like npm (Arborist's depValid checks only the
 				// version of whatever is installed under that name) the package behind the alias may differ
-				if e.Requirement == r.Ver && alias == r.Alias && (r.Alias != "" || g.Nodes[e.To].Version.Name == r.Pkg) {
+				if e.Requirement == r.Ver && alias == r.Alias && (r.Alias != "" || g.Nodes[e.To].Version.Name == r.Pkg || aliasKeys[r.Pkg]) {
 					found = true
 				}
 			}
@@ -157,13 +183,7 @@ func c06Check(u univ.Universe, root [2]string, st *c06Stats) (fails []string, ou
 		for _, e := range out[i] {
 			to := g.Nodes[e.To].Version
 			alias, _ := e.Type.GetAttr(dep.KnownAs)
-			var decl *univ.Req
-			for k := range v.Reqs {
-				r := &v.Reqs[k]
-				if (r.Pkg == to.Name || alias != "") && r.Ver == e.Requirement && r.Alias == alias && !r.Dev && r.Scope != "peer" {
-					decl = r
-				}
-			}
+			decl := declOf(v, e)
 			if decl == nil {
 				fail("edge", fmt.Sprintf("edge %s@%s -> %s@%s (%q) corresponds to no non-dev, non-peer requirement of the dependent", v.Pkg, v.Ver, to.Name, to.Version, e.Requirement))
 				continue
@@ -253,24 +273,46 @@ func c06Check(u univ.Universe, root [2]string, st *c06Stats) (fails []string, ou
 				continue
 			}
 			for _, e := range out[i] {
-				lookup := g.Nodes[e.To].Version.Name
+				// folder names the edge may be looked up under: the alias, or the declared dependency name(s) the edge
+				// can stand for (with aliases spelled like real packages several declarations share a requirement text)
+				var names []string
 				if alias, ok := e.Type.GetAttr(dep.KnownAs); ok && alias != "" {
-					lookup = alias
-				}
-				var found *npmres.VerifTreeNode
-				for a := t; a != nil && found == nil; a = parent[a] {
-					for _, c := range a.Children {
-						if c.Name == lookup {
-							found = c
-							break
+					names = []string{alias}
+				} else {
+					names = []string{g.Nodes[e.To].Version.Name}
+					if fv, ok := u.Find(g.Nodes[i].Version.Name, g.Nodes[i].Version.Version); ok {
+						for _, r := range fv.Reqs {
+							if r.Alias == "" && r.Ver == e.Requirement && !r.Dev && r.Scope != "peer" && aliasKeys[r.Pkg] && r.Pkg != names[0] {
+								names = append(names, r.Pkg)
+							}
 						}
 					}
 				}
+				ok := false
+				var firstFound *npmres.VerifTreeNode
+				for _, lookup := range names {
+					var found *npmres.VerifTreeNode
+					for a := t; a != nil && found == nil; a = parent[a] {
+						for _, c := range a.Children {
+							if c.Name == lookup {
+								found = c
+								break
+							}
+						}
+					}
+					if found != nil && firstFound == nil {
+						firstFound = found
+					}
+					if found != nil && found.ID == e.To {
+						ok = true
+					}
+				}
 				switch {
-				case found == nil:
-					fail("lookup", fmt.Sprintf("Node's lookup of %q from %s@%s finds nothing, the edge points to %s@%s", lookup, g.Nodes[i].Version.Name, g.Nodes[i].Version.Version, g.Nodes[e.To].Version.Name, g.Nodes[e.To].Version.Version))
-				case found.ID != e.To:
-					fail("lookup", fmt.Sprintf("Node's lookup of %q from %s@%s lands on %s@%s (node %d), the edge points to %s@%s (node %d)", lookup, g.Nodes[i].Version.Name, g.Nodes[i].Version.Version, found.Version.Name, found.Version.Version, found.ID, g.Nodes[e.To].Version.Name, g.Nodes[e.To].Version.Version, e.To))
+				case ok:
+				case firstFound == nil:
+					fail("lookup", fmt.Sprintf("Node's lookup of %q from %s@%s finds nothing, the edge points to %s@%s", names, g.Nodes[i].Version.Name, g.Nodes[i].Version.Version, g.Nodes[e.To].Version.Name, g.Nodes[e.To].Version.Version))
+				default:
+					fail("lookup", fmt.Sprintf("Node's lookup of %q from %s@%s lands on %s@%s (node %d), the edge points to %s@%s (node %d)", names, g.Nodes[i].Version.Name, g.Nodes[i].Version.Version, firstFound.Version.Name, firstFound.Version.Version, firstFound.ID, g.Nodes[e.To].Version.Name, g.Nodes[e.To].Version.Version, e.To))
 				}
 			}
 		}
